@@ -164,6 +164,31 @@ package model
 //@   ensures[C19] roundtrip-d4: D() == 4 ==> result == fdiv(KF(), tofp(10000))
 //@   modifies nothing
 
+// instants (C19): the text written for an instant denotes that instant rounded to whole seconds, whatever the
+// location of the time value handed in (library contracts of time.Round/UTC/Format: /verif/contracts/external.spec)
+//@ func NewDateTimeType
+//@   ensures[C19] holds-text: result != nil && fresh(result) && *result == t
+//@   modifies nothing
+//@ func NewDateTimeTypeFromTime
+//@   axiom forall i int :: {rndsec(i)} rndsec(rndsec(i)) == rndsec(i)
+//@   ensures[C19] denotes-instant: result != nil && txtinst(*result) == rndsec(tinst(t)) && zform(*result)
+//@   modifies nothing
+//@ func (*DateTimeType).GetTime
+//@   requires d != nil
+//@   ensures[C19] reads-back: zform(*d) ==> result1 == nil && tinst(result0) == txtinst(*d)
+//@   modifies nothing
+//@   loop 0 invariant not-past-z: zform(*d) ==> $k <= 1
+// ISO 8601 durations are read by github.com/rickb777/date/period: no contract (result unconstrained)
+//@ func getTimeDurationFromString trusted
+//@   modifies nothing
+//@ func (*AbsoluteOrRelativeTimeType).GetTime
+//@   requires a != nil
+//@   ensures[C19] reads-back: zform(*a) ==> result1 == nil && tinst(result0) == txtinst(*a)
+//@   modifies nothing
+//@ func NewAbsoluteOrRelativeTimeTypeFromTime
+//@   ensures[C19] denotes-instant: result != nil && txtinst(*result) == rndsec(tinst(t))
+//@   modifies nothing
+
 // generic update engine entry (C05: reached from every partial write/notify/reply)
 // Its reflective helpers are leaves outside the verifier's reach (reflect.Value walks); they are trusted not to
 // panic here and exercised only by the bounded replay corpus. What is decided for all inputs is UpdateList's own body.
